@@ -26,12 +26,17 @@ type Spec struct {
 var Specs = map[string]*Spec{}
 
 // Requires lists, for a property whose statement includes the statements of other properties, those properties: C08 ("the
-// kernel's decisions equal the policy's, for arbitrary arguments, whatever the size") includes the compiler properties; C15
+// kernel's decisions equal the policy's, for arbitrary arguments, whatever the size") includes the compiler properties, and "after a successful load" is C09's "nil only if the filter is in force"; C15
 // names the invalid policies of C07, the kernel's refusal of C09 and "the target observes exactly the policy's decisions"
 // (C08) - the policy being the one written in the file, so the configuration path (C14) is included as well; C18's last clause is the configuration path (C14) plus the allow-list semantics (C01).  A tree on which a required
 // property's rules report a violation violates the including property as well, and its check says so (rule `requires`).
 var Requires = map[string][]string{
-	"C08": {"C01", "C02", "C03", "C04", "C05", "C06"},
+	// "for any number of groups and names, up to the whole syscall table", "for programs of every size", "every jump is
+	// forward and in bounds": the label-level argument of E1 becomes a statement about the assembled program through C06
+	"C01": {"C06"},
+	"C04": {"C06"},
+	"C05": {"C06"},
+	"C08": {"C01", "C02", "C03", "C04", "C05", "C06", "C09"},
 	"C15": {"C07", "C09", "C08", "C14"},
 	"C18": {"C14", "C01"},
 }
